@@ -31,7 +31,8 @@ UClasses(u) ==
       \cup (IF FIsOdd(u) THEN {"u_odd"} ELSE {"u_even"}) \cup (IF Sgn0(u) # Sgn0(y0) THEN {"y_flipped"} ELSE {})
 
 Verdict(ev) ==
-  CASE ev.ev = "h2c.Suite" ->
+  CASE ev.ev = "lib.Unexpected" -> << FALSE, {} >>                 \* a call that must succeed failed or panicked
+    [] ev.ev = "h2c.Suite" ->
          LET msg == HB(ev.msg)  dst == HB(ev.dst)
              want == IF ev.suite = "RO" THEN HashToCurveRO(msg, dst) ELSE EncodeToCurveNU(msg, dst) IN
          << /\ IF want[1] = "err" THEN ~ev.ok ELSE ev.ok /\ ev.out = EncUncompressedH(want[2]) /\ ValidPoint(want[2])
